@@ -36,7 +36,9 @@ int main(int argc, char **argv) {
         else if (fn == "strdup") { char *d = igv_strdup(A); isdup = true; if (d) { dup.assign((unsigned char *)d, (unsigned char *)d + strlen(d) + 1); free(d); } }
         else if (fn == "strndup") { char *d = igv_strndup(A, n); isdup = true; if (d) { dup.assign((unsigned char *)d, (unsigned char *)d + strlen(d) + 1); free(d); } }
         else if (fn == "strtok_r" || fn == "strtok") { islist = true; char *save = 0; char *tk = fn == "strtok" ? igv_strtok(A, B) : igv_strtok_r(A, B, &save);
-            for (int k = 0; tk && k < 64; ++k) { list.push_back(off(tk)); tk = fn == "strtok" ? igv_strtok(0, B) : igv_strtok_r(0, B, &save); } }
+            for (int k = 0; tk && k < 64; ++k) { list.push_back(off(tk)); tk = fn == "strtok" ? igv_strtok(0, B) : igv_strtok_r(0, B, &save); }
+            list.push_back(off(tk));   // the NULL that ended the loop, then two further searches: they must return NULL as well
+            for (int k = 0; k < 2; ++k) { tk = fn == "strtok" ? igv_strtok(0, B) : igv_strtok_r(0, B, &save); list.push_back(off(tk)); } }
         else { fprintf(stderr, "bad fn %s\n", fn.c_str()); exit(3); }
         Ev e("Str"); e.str("fn", fn.c_str()).bytes("mem", m.data(), sz).i("a", a).i("b", b).i("n", n).i("pad", pad);
         if (islist) e.ints("ret", list); else if (isdup) e.bytes("ret", dup.data(), dup.size()); else e.i("ret", ret);
